@@ -349,6 +349,12 @@ pub fn run_hx_prop(prop: &'static str, tier: &str) -> Outcome {
 }
 
 pub fn run(prop: &str, tier: &str) -> Option<Outcome> {
+    match prop {
+        "C15" => return Some(crate::gen::hexgen::run_c15(tier)),
+        "C16" => return Some(crate::gen::hexgen::run_c16(tier)),
+        "C17" => return Some(crate::gen::labelgen::run_c17(tier)),
+        _ => {}
+    }
     let p: &'static str = match prop {
         "C01" => "C01",
         "C02" => "C02",
